@@ -44,7 +44,7 @@ package ntor
 //@   requires labelsOK() && clientPublic != nil && kpOK(serverKeypair) && kpOK(idKeypair) && id != nil
 //@   ghost e1 := X25519(seq(serverKeypair.private), seq(clientPublic))
 //@   ghost e2 := X25519(seq(idKeypair.private), seq(clientPublic))
-//@   ensures [C08:zero_check_server] ok <==> !allzero(e1) && !allzero(e2)
+//@   ensures [C08,C03:zero_check_server] ok <==> !allzero(e1) && !allzero(e2)
 //@   ensures [C06,C08:exp_order_server] keySeed != nil && auth != nil && fresh(keySeed) && fresh(auth)
 //@       && seq(keySeed) == ntorKeySeed(cat(e1, e2), seq(idKeypair.public), seq(clientPublic), seq(serverKeypair.public), seq(id))
 //@       && seq(auth) == ntorAuth(cat(e1, e2), seq(idKeypair.public), seq(clientPublic), seq(serverKeypair.public), seq(id))
@@ -54,7 +54,7 @@ package ntor
 //@   requires labelsOK() && kpOK(clientKeypair) && serverPublic != nil && idPublic != nil && id != nil
 //@   ghost e1 := X25519(seq(clientKeypair.private), seq(serverPublic))
 //@   ghost e2 := X25519(seq(clientKeypair.private), seq(idPublic))
-//@   ensures [C08:zero_check_client] ok <==> !allzero(e1) && !allzero(e2)
+//@   ensures [C08,C02:zero_check_client] ok <==> !allzero(e1) && !allzero(e2)
 //@   ensures [C06,C08,C02:exp_order_client] keySeed != nil && auth != nil && fresh(keySeed) && fresh(auth)
 //@       && seq(keySeed) == ntorKeySeed(cat(e1, e2), seq(idPublic), seq(clientKeypair.public), seq(serverPublic), seq(id))
 //@       && seq(auth) == ntorAuth(cat(e1, e2), seq(idPublic), seq(clientKeypair.public), seq(serverPublic), seq(id))
